@@ -113,12 +113,17 @@ ViewOf(s, topicSeq, err) ==
       leader |-> [tp \in TPs |-> IF s.leader[tp] # 0 /\ s.up[s.leader[tp]] /\ s.listed[s.leader[tp]] THEN s.leader[tp] ELSE 0],
       full |-> topics = {} ]
 
-Merge(st, view) ==
+RECURSIVE Run(_, _)
+Merge(st, view, e) ==
     LET s == st.s
         listed == {b \in B : view.brokers[b] # 0}
         prune == IF view.full /\ listed # {} THEN {b \in B : s.cl[b] /\ b \notin listed} ELSE {}
         cb2 == [b \in B |-> IF b \in listed THEN view.brokers[b] ELSE s.cb[b]]
-        s1 == [s EXCEPT !.cb = cb2,
+        s1 == [s EXCEPT !.cb = cb2]
+        \* The broker list is applied first: the requests of a pruned client fail, and everything their failure sets off
+        \* (operations completing with failed payloads and invalidating metadata, broker-agnostic requests moving on
+        \* to the next host) runs to completion BEFORE the topic part of the same answer is written to the cache.
+        WriteTopics(sx) == [sx EXCEPT
                         !.cparts = [t \in Topics |-> IF t \in view.topics
                                                      THEN (IF view.err[t] = 0 THEN "known" ELSE "absent") ELSE @[t]],
                         !.cerr = [t \in Topics |-> IF t \in view.topics THEN view.err[t] ELSE @[t]],
@@ -138,7 +143,8 @@ Merge(st, view) ==
                        o2 == [stx.out EXCEPT !.lost = IF stx.s.conn[b] THEN @ \cup {b} ELSE @]
                    IN CloseAll(St(s2, o2, stx.sig \o [i \in DOMAIN pend |-> [k |-> "done", r |-> pend[Len(pend) + 1 - i], ok |-> FALSE, why |-> "closed"]]),
                                bs \ {b})
-       IN CloseAll(St(s1, st.out, st.sig), prune)
+           ran == Run(CloseAll(St(s1, st.out, <<>>), prune), e)
+       IN St(WriteTopics(ran.s), ran.out, st.sig)
 
 \* ---------------------------------------------------------------- the broker-agnostic request machine
 \* op.u = [cands: Seq(target) still to try, boot: 0 | 1, what: "meta" | "coord", topics]
@@ -275,7 +281,7 @@ Done(st, r, ok, why, e) ==
        ELSE IF q.kind \in {"meta", "coord"}
        THEN IF ~ok THEN St(stb.s, stb.out, <<[k |-> "next", op |-> op]>> \o stb.sig)
             ELSE IF q.kind = "meta"
-            THEN LET m == Merge(stb, q.view) IN
+            THEN LET m == Merge(stb, q.view, e) IN
                  IF o.kind = "meta" THEN Finish(m, op, "ok", <<>>)
                  ELSE St([m.s EXCEPT !.ops[op].st = "resolving"], m.out, <<[k |-> "resolve", op |-> op]>> \o m.sig)
             ELSE \* coordinator lookup answered
@@ -302,7 +308,6 @@ UFail(st, op) ==
                             !.ops = [i \in DOMAIN @ |-> IF i \in SeqToSet(ws) THEN [@[i] EXCEPT !.st = "resolving"] ELSE @[i]]],
                st.out, go \o st.sig)
 
-RECURSIVE Run(_, _)
 Run(st, e) ==
     IF st.sig = <<>> THEN st
     ELSE LET g == Head(st.sig) st1 == St(st.s, st.out, Tail(st.sig)) IN
@@ -357,16 +362,22 @@ DoTimeout(st, e) ==
                          st1 == Run(St(stx.s, stx.out, <<[k |-> "done", r |-> r, ok |-> FALSE, why |-> "timeout"]>>), e)
                          st2 == IF drop THEN LET g == ConnGone(st1, b, TRUE) IN St(g.s, [g.out EXCEPT !.lost = @ \cup {b}], g.sig)
                                 ELSE st1
-                     IN Fire(Settle(st2), k + 1)
-    IN Fire(St([s EXCEPT !.epoch = @ + 1], st.out, <<>>), 1)
+                     IN Fire(st2, k + 1)
+    \* (timers of the same instant all fire before any connection event -- a reconnect, a re-send -- can happen)
+    IN Settle(Fire(St([s EXCEPT !.epoch = @ + 1], st.out, <<>>), 1))
 
 \* What a request looks like on the wire.  Requests written to one connection within the same reactor event by
 \* different operations have no order the model could know (it depends on the order in which timers of the same
 \* instant fire): an Answer event may therefore name the request the broker answered (e.k); <<>> means the oldest.
 Desc(q) == <<q.kind, q.tps, q.topics>>
+\* e.k = <<>>: the oldest request; <<kind, tps, topics>>: the oldest request of that description; with a fourth
+\* element n: the n-th oldest of that description (requests that look the same on the wire, written by different
+\* operations in the same event -- trace validation tries each)
+KDesc(e) == SubSeq(e.k, 1, 3)
+Matching(s, e) == SelectSeq([i \in DOMAIN s.inbox[e.t] |-> i], LAMBDA i : Desc(s.reqs[s.inbox[e.t][i]]) = KDesc(e))
 Possible(s, e) ==
     CASE e.a \in {"CallMeta", "CallProduce", "CallCommit"} -> TRUE
-      [] e.a = "Answer"   -> s.inbox[e.t] # <<>> /\ (e.k # <<>> => \E i \in DOMAIN s.inbox[e.t] : Desc(s.reqs[s.inbox[e.t][i]]) = e.k)
+      [] e.a = "Answer"   -> s.inbox[e.t] # <<>> /\ (e.k # <<>> => Len(Matching(s, e)) >= (IF Len(e.k) = 4 THEN e.k[4] ELSE 1))
       [] e.a = "Timeout"  -> \E r \in DOMAIN s.reqs : s.reqs[r].live
       [] e.a = "Drop"     -> s.conn[e.t] /\ s.cl[e.t]
       [] e.a = "Down"     -> s.up[e.t]
@@ -409,9 +420,7 @@ Step(s, e) ==
       [] e.a = "Answer" ->
            \* the broker behind target t answers the oldest request it holds, from the cluster's state
            LET t == e.t
-               pos == IF e.k = <<>> THEN 1
-                      ELSE CHOOSE i \in DOMAIN s.inbox[t] : Desc(s.reqs[s.inbox[t][i]]) = e.k
-                                                            /\ \A j \in 1..(i - 1) : Desc(s.reqs[s.inbox[t][j]]) # e.k
+               pos == IF e.k = <<>> THEN 1 ELSE Matching(s, e)[IF Len(e.k) = 4 THEN e.k[4] ELSE 1]
                r == s.inbox[t][pos] q == s.reqs[r]
                b == IF t \in B THEN t ELSE BootBroker(t)
                s1 == [s EXCEPT !.inbox[t] = SubSeq(@, 1, pos - 1) \o SubSeq(@, pos + 1, Len(@))]
